@@ -263,6 +263,10 @@ pub struct EmbSkinSpec {
 #[derive(Clone, Debug, Default, Serialize, Deserialize)]
 pub struct ModelSpec {
     pub ver: Ver,
+    /// header version number written instead of the version's canonical one (257..259 are Vanilla, 261..263
+    /// TBC, 265..271 WotLK builds: the library accepts them and picks record layouts by thresholds)
+    #[serde(default)]
+    pub hdr_version: Option<u32>,
     pub name: Option<String>,
     pub flags: u32,
     pub hdr_seed: u32,
